@@ -53,6 +53,7 @@ def main():
         },
         "engines": [
             {"name": "tlc", "path": "spec/", "serves_properties": [c["property_id"] for c in checks], "kind_free_text": "TLA+ specifications, model-checking / generation / trace configurations run by TLC"},
+            {"name": "pydrv", "path": "pydrv/", "serves_properties": ["C18"], "kind_free_text": "std-lib Python driver executing the TLC-generated scripts through the similari extension module built from /repo"},
             {"name": "vh", "path": "harness/", "serves_properties": [c["property_id"] for c in checks], "kind_free_text": "Rust conformance harness: replays TLC behaviours into the real code, records traces of the real code"},
         ],
         "checks": checks,
